@@ -28,7 +28,7 @@ LEMMAS = [
     "Proofs.TextTotal.text_walk_step_advances : pos mod 4 = 0 -> r_read_message .. pos = (Ok msg, p) -> pos + 4 <= p /\\ p mod 4 = 0",
     "Proofs.TextTotal.text_from_bytes_no_panic : (forall k, BinFormat.from_bytes e f <> Panic k) -> forall k, from_bytes fmt e f <> Panic k",
     "Proofs.TextTotal.text_from_bytes_fuel_never_exhausted",
-    "Proofs.TextTotal.text_serialize_ok / text_serialize_no_panic / text_reserialize_no_panic (both modes)",
+    "Proofs.TextTotal.text_serialize_ok_or_too_large (Ok, or the 32-bit size error of fix 524d15f) / text_serialize_no_panic / text_reserialize_no_panic (both modes)",
     "Proofs.ArcTotal.arc_from_archive_no_panic : forall m a k, arc_from_archive m a <> Panic k   (both modes)",
     "Proofs.ArcTotal.arc_from_archive_fuel_never_exhausted : forall m a, arc_from_archive m a <> Err EOutOfFuel",
     "Proofs.ArcTotal.arc_from_bytes_no_panic / arc_from_bytes_fuel_never_exhausted (relative to BinFormat.from_bytes)",
